@@ -14,10 +14,10 @@ import (
 )
 
 type oSlice struct {
-	typ     types.Type
-	arr     *[]oval
-	lo, hi  int
-	capEnd  int // index in *arr one past the capacity
+	typ    types.Type
+	arr    *[]oval
+	lo, hi int
+	capEnd int // index in *arr one past the capacity
 }
 
 func (s oSlice) isNil() bool { return s.arr == nil }
@@ -372,7 +372,7 @@ func (fr *oFrame) rangeStmt(s *ast.RangeStmt) oCtl {
 	default:
 		return fr.abort("range over %s at %s", showVal(xv), fr.it.p.Position(s.X.Pos()))
 	}
-	if n > 64 {
+	if n > fr.it.loopLimit() {
 		return fr.abort("range over %d elements", n)
 	}
 	for i := 0; i < n; i++ {
